@@ -6,7 +6,9 @@ from tools.harness.common import DIALECTS
 ID = 'C02'
 TARGETS = ['MindsVerif.Props.C02']
 THEOREMS = ['MindsVerif.Props.C02.C02_partial_sqlite', 'MindsVerif.Props.C02.C02_partial_mysql',
-            'MindsVerif.Props.C02.C02_partial_mindsdb', 'MindsVerif.Props.C02.C02_driver_generic']
+            'MindsVerif.Props.C02.C02_partial_mindsdb', 'MindsVerif.Props.C02.C02_driver_generic',
+            'MindsVerif.Props.C02.C02_review_raise_never_none', 'MindsVerif.Props.C02.C02_review_raise_never_none_sqlite',
+            'MindsVerif.Props.C02.C02_review_raise_never_none_mysql']
 ASSUME = [
     'theorem covers the table-driven runtime only (no stuck state, error_info well-formed); the semantic '
     'actions, AST constructors, ErrorHandling and termination are covered by the crash search of this run, not by a theorem',
